@@ -29,6 +29,9 @@ ASSUMPTIONS = [
     "empty (zero-byte) data sets are not generated here: they belong to C16 (CommandDataSetType vs. data fragments)",
     "the presentation context ID and maximum length given to encode_msg are arbitrary (no association involved)",
     "setter rejections (ValueError/TypeError) of a generated value are counted as api-rejected, not failures",
+    "side sweep 'out_of_range' (never counted as non-trivial): integers outside 0..65535 for one US parameter are outside the "
+    "in-range domain; the only assertion is 'refused by the setter, or accepted and round-tripped' (statement: every value the "
+    "primitive accepts)",
 ]
 SHARDS = {"quick": 1, "thorough": 16}
 MIN_NONTRIVIAL = 50
@@ -167,7 +170,39 @@ def check_roundtrip(ctx, case):
         ctx.fail("context-id", f"{kind}:primitive", f"context ID {cid} became {x['context_id']}")
 
 
-CHECKS = {"roundtrip": check_roundtrip}
+def check_out_of_range(ctx, case):
+    """Labelled side domain (outside 'in-range values'): ONE 16-bit (US) parameter gets an integer outside 0..65535.
+    The property speaks of 'every combination of parameter values the primitive accepts', so the only outcomes that
+    are fine are: the setter refuses the value (ValueError/TypeError), or the accepted value survives the round trip."""
+    from pynetdicom.dimse_messages import DIMSEMessage
+
+    desc, kw = case["desc"], case["keyword"]
+    kind = desc["kind"]
+    try:
+        prim = G.build(desc)
+    except G.Rejected as e:
+        ctx.note(case, nontrivial=False, classes=["out-of-range", "oor:rejected-by-setter", "oor-rejected:" + e.keyword])
+        return
+    ctx.note(case, nontrivial=False, classes=["out-of-range", "oor:accepted-by-setter", "oor-accepted:" + kw])
+    try:
+        msg = G.message_class(kind)()
+        msg.primitive_to_message(prim)
+        pdatas = list(msg.encode_msg(1, 0))
+        rx = DIMSEMessage()
+        done = [bool(rx.decode_msg(p)) for p in pdatas]
+        back = G.extract(rx.message_to_primitive()) if done and done[-1] else None
+    except Exception as e:
+        ctx.fail(
+            "accepted-out-of-range",
+            sig.exc_key(e),
+            f"{type(prim).__name__}.{kw} = {desc['params'][kw]} is accepted by the setter, then the conversion of the {kind} raises\n{sig.exc_text(e)}",
+        )
+        return
+    if back is None or back["params"].get(kw) != desc["params"][kw]:
+        ctx.fail("accepted-out-of-range", f"value-changed:{kw}", f"{kw}={desc['params'][kw]} accepted, came back as {back and back['params'].get(kw)!r} ({kind})")
+
+
+CHECKS = {"roundtrip": check_roundtrip, "out_of_range": check_out_of_range}
 
 # fixed in-range values for the exhaustive subset enumeration
 _FIXED = {
@@ -232,3 +267,14 @@ def run(ctx):
     )
     n = 2500 if ctx.quick else 6500
     ctx.hyp("roundtrip", case, n)
+
+    # labelled out-of-domain side sweep: one US parameter outside 0..65535 (see check_out_of_range)
+    @st.composite
+    def oor(draw):
+        d = draw(G.descs(dataset="none"))
+        us = [k for k in d["params"] if C.ELEMENTS[k][1] == "US"]
+        kw = sorted(us)[draw(st.integers(0, 10**6)) % len(us)]
+        d["params"][kw] = draw(st.one_of(st.sampled_from([-1, 65536, 70000, 2**31, 2**32, -(2**15) - 1]), st.integers(65536, 2**33), st.integers(-(2**33), -1)))
+        return {"desc": d, "keyword": kw}
+
+    ctx.hyp("out_of_range", oor(), 200 if ctx.quick else 400)
